@@ -4,8 +4,10 @@
 (*   {destination absent, file, reached through a symlink}                 *)
 (* x {no tensor / tensor 1 backed by the destination}                      *)
 (* x 1..MaxT tensors x 1..MaxC chunks x serial/parallel writer,            *)
-(* plus the sharded variant (one shard per tensor, any set of pre-existing *)
-(* shard files), with a fault or a crash at every position.                *)
+(* plus the sharded variant (shard count a function of the limit, incl.    *)
+(* one shard = plain name; plain-name file absent/present/backing a tensor;*)
+(* any set of pre-existing numbered shard files), with a fault or a crash  *)
+(* at every position.                                                      *)
 (* EmitEnd prints one JSON record per distinct terminal state: the fault   *)
 (* position and the end state the design allows there.                     *)
 (***************************************************************************)
@@ -13,11 +15,23 @@ EXTENDS AtomicSave, Json
 
 CONSTANTS MaxT, MaxC, EmitOn
 
-Single == {c \in [nt : 1..MaxT, nc : 1..MaxC, dest : {"absent", "file", "symlink"}, backed : {{}, {1}},
-                  par : BOOLEAN, shard : {FALSE}, pre : {{}}] :
+Mk(nt, nc, dest, backed, par, shard, pre, lim) ==
+  [nt |-> nt, nc |-> nc, dest |-> dest, backed |-> backed, par |-> par, shard |-> shard, pre |-> pre,
+   lim |-> lim, sh |-> ShardAssign(nt, nc, backed, shard, lim)]
+
+Single == {c \in {Mk(nt, nc, dest, backed, par, FALSE, {}, 0) :
+                   nt \in 1..MaxT, nc \in 1..MaxC, dest \in {"absent", "file", "symlink"},
+                   backed \in {{}, {1}}, par \in BOOLEAN} :
              WellFormedCfg(c) /\ (c.par => c.nt >= 2)}
-Sharded == UNION {{[nt |-> n, nc |-> k, dest |-> "absent", backed |-> {}, par |-> FALSE, shard |-> TRUE, pre |-> p] :
-                     p \in SUBSET (1..n)} : <<n, k>> \in (2..MaxT) \X (1..MaxC)}
+
+(* sharded request: limit = 1, 2, .. nt tensors' worth of bytes (so also "everything fits ONE shard,
+   which keeps the plain name"), plain-name file absent / present / present and backing tensor 1,
+   every set of pre-existing numbered shard files                                               *)
+ShardedBase == {c \in {Mk(nt, nc, dest, backed, FALSE, TRUE, {}, k * nc) :
+                        nt \in 1..MaxT, nc \in 1..MaxC, dest \in {"absent", "file"},
+                        backed \in {{}, {1}}, k \in 1..MaxT} :
+                  WellFormedCfg(c) /\ c.lim <= c.nt * c.nc}
+Sharded == UNION {{[c EXCEPT !.pre = p] : p \in SUBSET (IF Numbered(c) THEN 1..NShardsC(c) ELSE {})} : c \in ShardedBase}
 Configs == Single \cup Sharded
 
 Init == \E c \in Configs : InitFor(c)
